@@ -147,6 +147,8 @@ class Inlining:
         self.spent = 0
         self.budget = 60000
         self.self_methods = {}   # private methods of the class under analysis: name -> key in funcs ('meth:<name>')
+        self.module_aliases = set()
+        self.attr_shapes = {}
 
     def nf(self, name, argshapes=()):
         key = (name, argshapes)
@@ -158,8 +160,10 @@ class Inlining:
         try:
             nz = Normalizer(self.funcs[name], self.shapes, self.known, None, self.helper_rules, self.global_names)
             nz.inliner = self
+            nz.module_aliases = set(self.module_aliases)
             if name.startswith('meth:'):
                 nz.self_methods = self.self_methods
+                nz.attr_shapes = dict(self.attr_shapes)
             # a helper without a documented shape contract takes the shapes of the arguments it is called with
             for p_, sh in zip(nz.params, argshapes):
                 if sh is not None and p_ not in nz.pshape:
@@ -255,8 +259,16 @@ class Normalizer:
                 r = self.index(r[1], r[2])
             except Exception:  # noqa
                 pass
+        elif r and r[0] == 'cmp' and len(r) == 4:
+            r = self.none_test(r)
+        elif r and r[0] == 'bin' and len(r) == 4 and (self._one_cell(r[2]) or self._one_cell(r[3])):
+            r = self.binop(r[1], r[2], r[3])
         elif r and r[0] == 'unpack' and len(r) == 3 and isinstance(r[1], tuple) and r[1] and r[1][0] == 'tuple' and isinstance(r[2], int) and r[2] < len(r[1][1]):
             r = r[1][1][r[2]]
+        elif r and r[0] == 'ite' and len(r) == 4 and r[1] in (('k', True), ('k', False), ('k', None)):
+            r = r[2] if r[1] == ('k', True) else r[3]       # a flag parameter bound to a constant at the call site
+        elif r and r[0] == 'not' and len(r) == 2 and r[1] in (('k', True), ('k', False)):
+            r = ('k', not r[1][1])
         memo[k] = (t, r)
         return r
 
@@ -362,6 +374,14 @@ class Normalizer:
             if isinstance(st.value, ast.Call) and isinstance(st.value.func, ast.Name) and st.value.func.id in OUTPUT_ONLY \
                     and st.value.func.id not in env:
                 return          # N21: console output (print / disp) is not part of the compared behaviour
+            cl = st.value
+            if isinstance(cl, ast.Call) and isinstance(cl.func, ast.Attribute) and cl.func.attr == 'append' and isinstance(cl.func.value, ast.Name) \
+                    and len(cl.args) == 1 and not cl.keywords and cl.func.value.id in env and self.is_list_value(env[cl.func.value.id]):
+                # N23: L.append(x) on a local list is the functional update L := L ++ [x]
+                cur = env[cl.func.value.id]
+                x = self.expr(cl.args[0], env)
+                env[cl.func.value.id] = ('list', cur[1] + (x,)) if cur[0] == 'list' else ('snoc', cur, x)
+                return
             env['$eff'] = ('eff', env['$eff'], self.expr(st.value, env))
             return
         if isinstance(st, ast.Pass):
@@ -475,6 +495,9 @@ class Normalizer:
                             tg = [sub.target]
                         elif isinstance(sub, ast.For):
                             tg = [sub.target]
+                        elif isinstance(sub, ast.Expr) and isinstance(sub.value, ast.Call) and isinstance(sub.value.func, ast.Attribute) \
+                                and sub.value.func.attr == 'append' and isinstance(sub.value.func.value, ast.Name):
+                            tg = [sub.value.func.value]          # N23: L.append(x) rebinds L functionally
                         elif isinstance(sub, (ast.Import, ast.ImportFrom)):
                             for a in sub.names:
                                 nm = (a.asname or a.name).split('.')[0]
@@ -518,12 +541,52 @@ class Normalizer:
             bodies = {v: r[1].get(v, ('undef', '<local>')) for v in carried}
             raw = ('rawloop', d, header, tuple((inits[v], bodies[v]) for v in carried))
             for k, v in enumerate(carried):
-                env[v] = ('lout', raw, k)
+                env[v] = ('lout', raw, k) if bodies[v] != ('lv', d, k) else inits[v]     # a value the body never changes
+            # N23: `L = []; for i in range(n): L.append(g(i))` with g independent of the loop's carried values is  [g(i) for i in range(n)]
+            if isinstance(st, ast.For) and header[1][0] == 'call' and header[1][1] == 'range' and len(header[1][2]) == 1 and not header[1][3]:
+                for k, v in enumerate(carried):
+                    b_ = bodies[v]
+                    if inits[v] == ('list', ()) and isinstance(b_, tuple) and b_[0] == 'snoc' and b_[1] == ('lv', d, k) \
+                            and not self._mentions_loop(b_[2], d, carried_only=True):
+                        lvl = self.lam_level
+                        env[v] = ('lam', lvl, header[1][2][0], self._rename_iv(b_[2], d, ('bv', lvl)))
             if isinstance(st, ast.For):
                 # the loop variable keeps its last value; not used afterwards in the library (conservative marker)
                 env[tv[0]] = ('lastiv', raw)
         finally:
             self.depth -= 1
+
+    def _mentions_loop(self, t, d, carried_only=False, memo=None):
+        if not isinstance(t, tuple) or not t:
+            return False
+        memo = {} if memo is None else memo
+        k_ = id(t)
+        if k_ in memo:
+            return memo[k_]
+        if t[0] == 'lv' and len(t) == 3 and t[1] == d:
+            r = True
+        elif t[0] == 'iv' and len(t) == 2 and t[1] == d:
+            r = not carried_only
+        else:
+            r = any(self._mentions_loop(x, d, carried_only, memo) for x in t)
+        memo[k_] = r
+        return r
+
+    def _rename_iv(self, t, d, new, memo=None):
+        if not isinstance(t, tuple) or not t:
+            return t
+        memo = {} if memo is None else memo
+        k_ = id(t)
+        if k_ in memo:
+            return memo[k_][1]
+        if t == ('iv', d):
+            r = new
+        else:
+            r = tuple(self._rename_iv(x, d, new, memo) for x in t)
+            if r == t:
+                r = t
+        memo[k_] = (t, r)
+        return r
 
     # ------------------------------------------------------------------ expressions
     def expr(self, e, env):
@@ -583,7 +646,7 @@ class Normalizer:
             parts = []
             for op, c in zip(e.ops, e.comparators):
                 r = self.expr(c, env)
-                parts.append(canon_cmp(CMPOPS[type(op)], l, r))
+                parts.append(self.none_test(canon_cmp(CMPOPS[type(op)], l, r)))
                 l = r
             return parts[0] if len(parts) == 1 else ('and', tuple(parts))
         if isinstance(e, ast.Tuple):
@@ -642,9 +705,44 @@ class Normalizer:
     def ite(self, c, a, b):
         if a == b:
             return a
+        if c == ('k', True):
+            return a
+        if c == ('k', False) or c == ('k', None):
+            return b
         if c[0] == 'not':
-            return ('ite', c[1], b, a)
+            return self.ite(c[1], b, a)
+        # N22: inside the branch where c holds, a nested conditional on the same c is its first arm (and vice versa)
+        a, b = self.assume(a, c, True), self.assume(b, c, False)
+        if a == b:
+            return a
+        if a == ('k', True) and b == ('k', False) and c[0] in ('cmp', 'and', 'or', 'not'):
+            return c
         return ('ite', c, a, b)
+
+    def assume(self, t, c, truth):
+        """t with every conditional on exactly the condition c replaced by the arm selected by `truth` (bounded size)"""
+        if not _has(t, ('ite',)) or term_size(t, 3000) >= 3000:
+            return t
+        memo = {}
+
+        def go(x):
+            if not isinstance(x, tuple) or not x:
+                return x
+            k_ = id(x)
+            if k_ in memo:
+                return memo[k_][1]
+            if x[0] == 'ite' and len(x) == 4 and x[1] == c:
+                r = go(x[2] if truth else x[3])
+            elif x[0] in ('rawloop', 'loop'):
+                r = x
+            else:
+                r = tuple(go(y) for y in x)
+                if r == x:
+                    r = x
+            memo[k_] = (x, r)
+            return r
+        r = go(t)
+        return r if r is t else self.refold(r)
 
     def neg(self, v):
         if is_num(v):
@@ -661,9 +759,21 @@ class Normalizer:
             return v
         return ('T', v)
 
+    @staticmethod
+    def _one_cell(t):
+        return isinstance(t, tuple) and t and t[0] == 'block' and t[1] in ((1,), (1, 1)) and len(t[2]) == 1
+
     def binop(self, op, a, b):
         if op == '@':
             return self.dot(a, b)
+        # N24: element-wise arithmetic of a scalar with a one-element array is that arithmetic on the element
+        if op in ('+', '-', '*', '/') and self._one_cell(a) != self._one_cell(b):
+            blk, other, left = (a, b, True) if self._one_cell(a) else (b, a, False)
+            cell = blk[2][0]
+            v = self.binop(op, cell[4], other) if left else self.binop(op, other, cell[4])
+            if self.shape(other) == ():
+                return ('block', blk[1], ((cell[0], cell[1], cell[2], cell[3], v),))
+            return v            # broadcast against an array (or a value of unknown rank): the element stands for the one-element array
         if is_num(a) and is_num(b):
             try:
                 x, y = a[1], b[1]
@@ -811,6 +921,19 @@ class Normalizer:
                 return None
         return [('idx', base, items[:k] + (num(v),) + items[k + 1:]) for v in range(lo, hi)]
 
+    def is_list_value(self, t):
+        """the term is known to be a Python list built in this function (literal, comprehension, appended-to, or loop-carried such)"""
+        if not isinstance(t, tuple) or not t:
+            return False
+        if t[0] in ('list', 'lam', 'lamseq', 'snoc'):
+            return True
+        if t[0] == 'lv':
+            init = self.loop_inits.get((t[1], t[2]))
+            return init is not None and init is not t and self.is_list_value(init)
+        if t[0] == 'lout':
+            return self.is_list_value(t[1][3][t[2]][0])
+        return False
+
     def _list_root(self, t):
         """the container a chain of stores started from is a Python list (items are kept as the very objects stored)"""
         while isinstance(t, tuple) and t and t[0] in ('store', 'lv', 'lout'):
@@ -824,10 +947,30 @@ class Normalizer:
             return True
         return isinstance(t, tuple) and t and t[0] == 'bin' and t[1] == '*' and isinstance(t[2], tuple) and t[2][0] == 'list'
 
+    NOT_NONE_HEADS = ('block', 'num', 'list', 'lam', 'tuple', 'bin', 'dot', 'T', 'neg', 'snoc')
+
+    def none_test(self, t):
+        """N22: `x is None` / `x is not None` / `x == None` / `x != None` decided for definite values, distributed over conditionals"""
+        op, l, r = t[1], t[2], t[3]
+        if op not in ('is', 'is not', '==', '!=') or (('k', None) not in (l, r)):
+            return t
+        x = r if l == ('k', None) else l
+        pos = op in ('is', '==')
+        if x == ('k', None):
+            return ('k', pos)
+        if isinstance(x, tuple) and x and (x[0] in self.NOT_NONE_HEADS or (x[0] == 'call' and isinstance(x[1], str) and (x[1].startswith('numpy.') or x[1] == 'tm'))):
+            return ('k', not pos)
+        if isinstance(x, tuple) and x and x[0] == 'ite':
+            return self.ite(x[1], self.none_test(canon_cmp(op, x[2], ('k', None))), self.none_test(canon_cmp(op, x[3], ('k', None))))
+        return t
+
     def index(self, b, items):
         ti = self._tuple_item(b, items)
         if ti is not None:
             return ti
+        if b[0] == 'ite' and len(b) == 4:
+            return self.ite(b[1], self.index(b[2], items) if b[2] != ('k', None) else ('undef', 'None[...]'),
+                            self.index(b[3], items) if b[3] != ('k', None) else ('undef', 'None[...]'))
         # N20: reading back exactly the region just stored gives the stored value (same rank, no broadcast)
         if b[0] == 'store' and b[2] == items:
             v = b[3]
@@ -842,6 +985,12 @@ class Normalizer:
             bs = self.shape(b[1])
             if bs is None or len(bs) >= len(b[2]) + len(items):
                 return self.index(b[1], b[2] + items)
+        # one constant index into a 2-D block of constant shape: that row as a 1-D block
+        if b[0] == 'block' and len(b[1]) == 2 and len(items) == 1 and is_num(items[0]) and all(isinstance(x, int) for x in b[1]):
+            r = int(items[0][1])
+            cells = [(c0, c1, 0, 1, t) for (r0, r1, c0, c1, t) in b[2] if r0 == r and r1 == r + 1]
+            if 0 <= r < b[1][0] and sum(c[1] - c[0] for c in cells) == b[1][1] and all(c[1] - c[0] == 1 for c in cells):
+                return self.mk_block((b[1][1],), cells)
         # reading from a block with constant scalar indices
         if b[0] == 'block' and all(is_num(it) for it in items) and len(items) == len(b[1]):
             r = int(items[0][1])
